@@ -173,19 +173,23 @@ def absNoDecX (d last loss : XF α) : Bool := XF.lt (XF.sub last loss) d
 def sopObsX (d last loss : XF α) (rejectCount : Option Nat) : Obs :=
   ⟨absNoDecX d last loss, false, match rejectCount with | some n => decide (0 < n) | none => false⟩
 
+/-- `StopOnPlateau.step` with special values in the optimizer's readings -/
+def sopStepX (c : Cfg) (d : XF α) (s : St) (last loss : XF α) (rejectCount : Option Nat) : St :=
+  sopStep c s (sopObsX d last loss rejectCount)
+
+/-- `StopOnPlateau.step` including its first statement `assert self.optimizer.loss is not None`: a reading is
+`none` when `optimizer.step()` has not been called yet (`optimizer.loss is None`); then the call raises
+(`none`) before anything is assigned — the scheduler is untouched. -/
+def sopStepChecked (c : Cfg) (d : α) (s : St) (o : Option (OptObs α)) : Option St :=
+  o.map fun r => sopStepNum c d s r
+
+/-- what the caller holds after a `step` call that may have raised: the old scheduler if it raised -/
+def sopStepOrKeep (c : Cfg) (d : α) (s : St) (o : Option (OptObs α)) : St := (sopStepChecked c d s o).getD s
+
 /-- events of a stepper history in the extended model -/
 inductive EvX (α : Type) where
   | step (loss : TX α)
   | reset
-
-/-- states after each event; the trace ends at the first event that raises (`none`) -/
-def rtbTraceX (c : Cfg) (d tol : XF α) : RtbStX α → List (EvX α) → List (Option (RtbStX α))
-  | _, [] => []
-  | s, .reset :: es => let s' := rtbResetX s; some s' :: rtbTraceX c d tol s' es
-  | s, .step loss :: es =>
-    match rtbStepX c d tol s loss with
-    | none => [none]
-    | some s' => some s' :: rtbTraceX c d tol s' es
 
 /-- state after `n` steps on the losses `loss 0 … loss (n-1)`; `none` as soon as one raises -/
 def rtbRunX (c : Cfg) (d tol : XF α) (s : RtbStX α) (loss : Nat → TX α) : Nat → Option (RtbStX α)
@@ -193,6 +197,48 @@ def rtbRunX (c : Cfg) (d tol : XF α) (s : RtbStX α) (loss : Nat → TX α) : N
   | n+1 => (rtbRunX c d tol s loss n).bind fun s' => rtbStepX c d tol s' (loss n)
 
 end ext
+
+/-! ## `scheduler.continual()` is a wrapper object bound to a scheduler
+
+`_Scheduler.__init__` stores `self.continual = self.Continual(self)`; `continual()` calls
+`self.optimizer.iscontinual()` on the scheduler the wrapper was *bound to* (its constructor argument), which returns
+that scheduler's `_continual`.  Schedulers live in a heap; `bound i` is the scheduler the wrapper stored in
+scheduler `i` points to. -/
+
+structure Heap where
+  st : Nat → St
+  bound : Nat → Nat
+
+/-- `iscontinual()` of scheduler `i` -/
+def Heap.iscontinual (h : Heap) (i : Nat) : Bool := (h.st i).cont
+/-- `scheduler_i.continual()`: the wrapper stored in `i` asks the scheduler it is bound to -/
+def Heap.continual (h : Heap) (i : Nat) : Bool := h.iscontinual (h.bound i)
+
+inductive HeapOp where
+  /-- `StopOnPlateau(...)` stored at address `i` -/
+  | new (i : Nat)
+  /-- `scheduler_i.step(...)` with observation `o` under configuration `c` -/
+  | step (i : Nat) (c : Cfg) (o : Obs)
+  /-- `copy.copy / copy.deepcopy / pickle` of `src` stored at `dst` (`__setstate__` re-binds the wrapper) -/
+  | copy (dst src : Nat)
+  /-- `scheduler_dst.load_state_dict(scheduler_src.state_dict())` (the wrapper is not part of the state dict and is
+  re-bound) -/
+  | load (dst src : Nat)
+
+def setAt {β : Type} (f : Nat → β) (i : Nat) (v : β) : Nat → β := fun j => if j = i then v else f j
+
+def Heap.apply (h : Heap) : HeapOp → Heap
+  | .new i => ⟨setAt h.st i St.init, setAt h.bound i i⟩
+  | .step i c o => ⟨setAt h.st i (sopStep c (h.st i) o), h.bound⟩
+  | .copy dst src => ⟨setAt h.st dst (h.st src), setAt h.bound dst dst⟩
+  | .load dst src => ⟨setAt h.st dst (h.st src), setAt h.bound dst dst⟩
+
+/-- the code before the repair D39: `state_dict()` carried the wrapper and `copy.copy` shared it — the wrapper of the
+destination stayed bound to whatever the source's wrapper was bound to -/
+def Heap.applyOld (h : Heap) : HeapOp → Heap
+  | .copy dst src => ⟨setAt h.st dst (h.st src), setAt h.bound dst (h.bound src)⟩
+  | .load dst src => ⟨setAt h.st dst (h.st src), setAt h.bound dst (h.bound src)⟩
+  | op => h.apply op
 
 /-! ## driver loops threading a numeric controller -/
 
